@@ -20,4 +20,5 @@ def run(ctx):
         return SS.judge(sess, r, check_frame=False) + size_gen.judge_size(sess, r)
     gens = [('size', dict(fn=lambda rng: size_gen.gen_size_session(rng), share=3)),
             ('wide', dict(fn=lambda rng: size_gen.gen_wide_session(rng), share=1))]
-    api_check.run_api_check(ctx, gens, None, n_quick=35, n_thorough=400, judge=judge)
+    api_check.run_api_check(ctx, gens, None, n_quick=35, n_thorough=400, judge=judge,
+                            gens_translators=('consts', 'vlens'))
